@@ -100,10 +100,10 @@ fn main() {
 """
 # safe conversions that would manufacture a `Reference` from a raw pointer without `unsafe`: must not exist
 SAFE_CONVERSION_PROBES = {
-    "Reference from ReferenceUnsafe::Ptr (From/Into)": PRELUDE + "fn main() { let mut x = 5i32; let p = &mut x as *mut i32; let r: Reference<i32> = ReferenceUnsafe::Ptr(p).into(); std::hint::black_box(*r.borrow()); }\n",
-    "Reference from ReferenceUnsafe::PtrRwLock (From/Into)": PRELUDE + "fn main() { let x = std::sync::RwLock::new(5i32); let r: Reference<i32> = Reference::from(ReferenceUnsafe::PtrRwLock(&x as *const _)); std::hint::black_box(*r.borrow()); }\n",
-    "Reference from ReferenceUnsafe::PtrMutex (TryFrom)": PRELUDE + "fn main() { let x = std::sync::Mutex::new(5i32); let r: Reference<i32> = Reference::try_from(ReferenceUnsafe::PtrMutex(&x as *const _)).ok().unwrap(); std::hint::black_box(*r.borrow()); }\n",
-    "ReferenceUnsafe::borrow in safe code": PRELUDE + "fn main() { let mut x = 5i32; let u = ReferenceUnsafe::Ptr(&mut x as *mut i32); let b = u.borrow(); std::hint::black_box(*b); }\n",
+    "Reference from ReferenceUnsafe::Ptr (From/Into)": PRELUDE + "fn main() { let mut x = 5i32; let p = &mut x as *mut i32; let r: Reference<i32> = rrtk::reference::ReferenceUnsafe::Ptr(p).into(); std::hint::black_box(*r.borrow()); }\n",
+    "Reference from ReferenceUnsafe::PtrRwLock (From/Into)": PRELUDE + "fn main() { let x = std::sync::RwLock::new(5i32); let r: Reference<i32> = Reference::from(rrtk::reference::ReferenceUnsafe::PtrRwLock(&x as *const _)); std::hint::black_box(*r.borrow()); }\n",
+    "Reference from ReferenceUnsafe::PtrMutex (TryFrom)": PRELUDE + "fn main() { let x = std::sync::Mutex::new(5i32); let r: Reference<i32> = Reference::try_from(rrtk::reference::ReferenceUnsafe::PtrMutex(&x as *const _)).ok().unwrap(); std::hint::black_box(*r.borrow()); }\n",
+    "ReferenceUnsafe::borrow in safe code": PRELUDE + "fn main() { let mut x = 5i32; let u = rrtk::reference::ReferenceUnsafe::Ptr(&mut x as *mut i32); let b = u.borrow(); std::hint::black_box(*b); }\n",
 }
 # controls: one program that must compile, one that must be rejected for a lifetime reason, one for the unsafe constructors
 CONTROL_OK = PRELUDE + """
@@ -123,6 +123,7 @@ fn main() {
     std::hint::black_box(&*t.borrow());
 }
 """
+CONTROL_RAW_VARIANT = PRELUDE + "fn main() { let mut x = 5i32; let u = rrtk::reference::ReferenceUnsafe::Ptr(&mut x as *mut i32); std::hint::black_box(&u); }\n"
 UNSAFE_CTOR_PROBES = {
     "Reference::from_ptr": PRELUDE + "fn main() { let mut x = 5i32; let r = Reference::from_ptr(&mut x as *mut i32); std::hint::black_box(*r.borrow()); }\n",
     "Reference::from_ptr_rw_lock": PRELUDE + "fn main() { let x = std::sync::RwLock::new(5i32); let r = Reference::from_ptr_rw_lock(&x as *const _); std::hint::black_box(*r.borrow()); }\n",
@@ -137,7 +138,7 @@ def c16_extra(tier, seed, log):
     viol = []
     try:
         names = {}
-        bins = {"control_ok": CONTROL_OK, "control_reject": CONTROL_REJECT}
+        bins = {"control_ok": CONTROL_OK, "control_reject": CONTROL_REJECT, "control_raw": CONTROL_RAW_VARIANT}
         for k, (n, src) in enumerate(list(LIFETIME_PROBES.items()) + list(UNSAFE_CTOR_PROBES.items()) + list(SAFE_CONVERSION_PROBES.items())):
             bn = "p%02d" % k
             names[bn] = n
@@ -147,6 +148,8 @@ def c16_extra(tier, seed, log):
         if rc != 0:
             ev["inconclusive"] = "control program does not compile: " + out[-600:]
             return {"violations": [], "evidence": ev}
+        rc, out = _run(["cargo", "build", "--offline", "--quiet", "--bin", "control_raw"], d)
+        ev["control_raw_variant_constructible"] = (rc == 0)
         rc, out = _run(["cargo", "build", "--offline", "--quiet", "--bin", "control_reject"], d)
         if rc == 0 or not LIFETIME_ERR.search(out):
             ev["inconclusive"] = "negative control was not rejected for a lifetime reason"
@@ -154,7 +157,9 @@ def c16_extra(tier, seed, log):
         for bn, n in names.items():
             rc, out = _run(["cargo", "build", "--offline", "--quiet", "--bin", bn], d)
             if n in SAFE_CONVERSION_PROBES:
-                ev["probes"][n] = "rejected" if rc != 0 else "ACCEPTED in safe code"
+                right = rc != 0 and re.search(r"E0277|E0133|E0308|E0599", out) and "E0433" not in out and "E0432" not in out
+                ev["probes"][n] = ("rejected (no such safe conversion / unsafe fn)" if right else
+                                   "ACCEPTED in safe code" if rc == 0 else "inconclusive: rejected for an unrelated reason: " + out[-300:])
                 if rc == 0:
                     viol.append({"kind": "a Reference over a raw pointer can be manufactured / dereferenced without `unsafe`", "case": "probe:" + n,
                                  "found_input": True})
